@@ -26,6 +26,13 @@ package repository
 //   callback returns an error on its k-th invocation, k in {never, 1, 2, last}
 //            (A: for executions with 0 (quick) / <= 1 (thorough) non-ok answers; B: all; C: never)
 //
+// Part 2 (real repository on the in-memory backend): a blob stored in two
+// packs, copies of equal and of different stored length (one compressed, one
+// not); for each of the two packs as the streamed one x {its download fails,
+// the blob is damaged inside it}: the real LoadBlobsFromPack (fallback =
+// Repository.LoadBlob over all indexed copies) must deliver the blob's
+// plaintext, every requested blob exactly once.
+//
 // Oracle (independent model, no code shared with streamPack):
 //   * callbacks only for requested blobs, at most once each; exactly once each
 //     when streamPack returns nil; every callback carries err != nil or a
@@ -60,6 +67,7 @@ import (
 	"github.com/restic/restic/internal/repository/crypto"
 	"github.com/restic/restic/internal/repository/pack"
 	"github.com/restic/restic/internal/restic"
+	rtest "github.com/restic/restic/internal/test"
 	"github.com/restic/restic/internal/verifshim/vh"
 )
 
@@ -425,9 +433,177 @@ func verifC43Answers(parts [][]pack.Blob, maxBad int, fn func([]string)) {
 	rec(0, 0)
 }
 
+// ---- part 2: the real fallback (Repository.LoadBlob over all indexed copies) ----
+
+type verifC43FaultyBE struct {
+	backend.Backend
+	pack string // name of the pack the fault applies to
+	mode string // "download-error": every Load of the pack fails; "damaged": bytes [lo,hi) are flipped in every read
+	lo   int64
+	hi   int64
+}
+
+func (b *verifC43FaultyBE) Load(ctx context.Context, h backend.Handle, length int, offset int64, fn func(rd io.Reader) error) error {
+	if h.Type != backend.PackFile || h.Name != b.pack {
+		return b.Backend.Load(ctx, h, length, offset, fn)
+	}
+	if b.mode == "download-error" {
+		return errors.New("verifC43: download of the pack fails")
+	}
+	return b.Backend.Load(ctx, h, length, offset, func(rd io.Reader) error {
+		buf, err := io.ReadAll(rd)
+		if err != nil {
+			return err
+		}
+		for i := range buf {
+			if p := offset + int64(i); p >= b.lo && p < b.hi {
+				buf[i] ^= 0x20
+			}
+		}
+		return fn(bytes.NewReader(buf))
+	})
+}
+
+// verifC43RealFallback: a blob X is stored in two packs.  Variant "same-length": both copies were written
+// with the same settings.  Variant "other-length": one copy uncompressed, the other compressed (copies of
+// one blob may have any stored length: other compression mode, written before/after compression was
+// enabled).  For each of the two packs as the one that is streamed, with the pack's download failing or X
+// damaged inside it: the real LoadBlobsFromPack must still deliver X's plaintext from the other copy.
+func verifC43RealFallback(t *testing.T, r *vh.Run) {
+	ctx := context.Background()
+	mk := func(seed byte, n int) []byte {
+		b := make([]byte, n)
+		for i := range b {
+			b[i] = byte('a' + (i/37+int(seed))%11) // compressible
+		}
+		return b
+	}
+	for _, variant := range []string{"same-length", "other-length"} {
+		mem := TestBackend(t)
+		first, second := CompressionOff, CompressionOff
+		if variant == "other-length" {
+			second = CompressionMax
+		}
+		repo1, _ := TestRepositoryWithBackend(t, mem, 2, Options{Compression: first})
+		X, A, B := mk(1, 3000), mk(2, 2000), mk(3, 2500)
+		if err := repo1.WithBlobUploader(ctx, func(ctx context.Context, up restic.BlobSaverWithAsync) error {
+			for _, b := range [][]byte{A, X, B} {
+				if _, _, _, err := up.SaveBlob(ctx, restic.DataBlob, b, restic.ID{}, false); err != nil {
+					return err
+				}
+			}
+			return nil
+		}); err != nil {
+			t.Fatal(err)
+		}
+		repo2, err := New(mem, Options{Compression: second})
+		if err != nil {
+			t.Fatal(err)
+		}
+		if err := repo2.SearchKey(ctx, rtest.TestPassword, 10, ""); err != nil {
+			t.Fatal(err)
+		}
+		if err := repo2.LoadIndex(ctx, restic.NoopTerminalCounterFactory); err != nil {
+			t.Fatal(err)
+		}
+		if err := repo2.WithBlobUploader(ctx, func(ctx context.Context, up restic.BlobSaverWithAsync) error {
+			for _, c := range []struct {
+				b   []byte
+				dup bool
+			}{{mk(4, 1500), false}, {X, true}, {mk(5, 1800), false}} {
+				if _, _, _, err := up.SaveBlob(ctx, restic.DataBlob, c.b, restic.ID{}, c.dup); err != nil {
+					return err
+				}
+			}
+			return nil
+		}); err != nil {
+			t.Fatal(err)
+		}
+		hX := restic.BlobHandle{Type: restic.DataBlob, ID: restic.Hash(X)}
+		for _, mode := range []string{"download-error", "damaged"} {
+			for primary := 0; primary < 2; primary++ {
+				ck := fmt.Sprintf("real-fallback|%s|%s|streamed-copy=%d", variant, mode, primary)
+				if !r.Case(ck) {
+					continue
+				}
+				fbe := &verifC43FaultyBE{Backend: mem, mode: mode}
+				repo, err := New(fbe, Options{})
+				if err != nil {
+					t.Fatal(err)
+				}
+				if err := repo.SearchKey(ctx, rtest.TestPassword, 10, ""); err != nil {
+					t.Fatal(err)
+				}
+				if err := repo.LoadIndex(ctx, restic.NoopTerminalCounterFactory); err != nil {
+					t.Fatal(err)
+				}
+				copies := repo.LookupBlob(hX)
+				if len(copies) != 2 || (variant == "other-length") == (copies[0].CiphertextLength() == copies[1].CiphertextLength()) {
+					t.Fatalf("fixture %s: %d copies of X", variant, len(copies))
+				}
+				// stream the pack of copy `primary`, all of its blobs
+				p := copies[primary]
+				var raw []byte
+				if err := mem.Load(ctx, backend.Handle{Type: backend.PackFile, Name: p.PackID().String()}, 0, 0, func(rd io.Reader) (err error) { raw, err = io.ReadAll(rd); return err }); err != nil {
+					t.Fatal(err)
+				}
+				entries, _, err := pack.List(repo.Key(), bytes.NewReader(raw), int64(len(raw)))
+				if err != nil {
+					t.Fatal(err)
+				}
+				var handles []restic.BlobHandle
+				want := map[restic.BlobHandle]bool{}
+				fbe.pack = p.PackID().String()
+				for _, e := range entries {
+					handles = append(handles, e.BlobHandle)
+					want[e.BlobHandle] = true
+					if e.BlobHandle == hX {
+						fbe.lo, fbe.hi = int64(e.Offset)+20, int64(e.Offset)+24
+					}
+				}
+				got := map[restic.BlobHandle]int{}
+				var bad []string
+				panicked, msg := vh.NoPanic(func() {
+					err = repo.LoadBlobsFromPack(ctx, p.PackID(), handles, func(h restic.BlobHandle, buf []byte, err error) error {
+						got[h]++
+						switch {
+						case !want[h]:
+							bad = append(bad, fmt.Sprintf("foreign-callback: blob %v was not requested", h))
+						case err == nil && restic.Hash(buf) != h.ID:
+							bad = append(bad, fmt.Sprintf("wrong-bytes: blob %v delivered with other content", h))
+						case err != nil && h == hX:
+							bad = append(bad, fmt.Sprintf("no-fallback: X (copies of %d and %d stored bytes; streamed copy: %d bytes, %s) was reported with an error although its other copy is intact: %v", copies[0].CiphertextLength(), copies[1].CiphertextLength(), p.CiphertextLength(), mode, err))
+						case err != nil && mode == "damaged":
+							bad = append(bad, fmt.Sprintf("undamaged-blob-failed: blob %v is not damaged but was reported with %v", h, err))
+						}
+						return nil
+					})
+				})
+				r.Eval(1)
+				r.Trace(1)
+				r.NontrivialByConstruction(1)
+				if panicked {
+					bad = append(bad, "panic: "+msg)
+				}
+				for h := range want {
+					if got[h] != 1 {
+						bad = append(bad, fmt.Sprintf("not-once: blob %v got %d callbacks", h, got[h]))
+					}
+				}
+				r.Outcome(fmt.Sprintf("real-fallback|%s|%s|ok=%v", variant, mode, len(bad) == 0))
+				for _, b := range bad {
+					kind := b[:strings.Index(b, ":")]
+					r.Violationf(ck, "C43|"+ck+"|"+kind, ck, "%s [%s]", b, ck)
+				}
+			}
+		}
+	}
+}
+
 func TestVerif_C43(t *testing.T) {
 	r := vh.Start(t, "C43")
 	defer r.Finish()
+	verifC43RealFallback(t, r)
 	r.Rule("every non-empty blob subset of three synthetic pack layouts (gap-boundary, tiny, 32 MiB-chunk-boundary) x every assignment of range-request answers {ok,error,short,MAC damage of blob j,wrong sealed content for blob j} within the stated deviation bound x fallback {nil,all,none,even} x callback abort position, through the real streamPack; non-trivial = more than one range request, or a non-ok answer, or a callback abort")
 	key := verifC43Key(t)
 	dec, err := zstd.NewReader(nil)
